@@ -315,6 +315,10 @@ fn pa_strings(thorough: bool) -> Vec<Vec<u8>> {
         vec![0, 0, 0],
         vec![5, 5, 5, 6, 6, 6, 6],
         ramp(32, 9),
+        // a symbol whose FIRST run is short and whose later run is too long, and the mirror
+        vec![0, 1, 0, 0, 0, 0],
+        vec![7, 7, 7, 7, 3, 7],
+        vec![5, 5, 5, 6, 5, 5, 5, 5, 6, 6, 6],
     ];
     if thorough {
         v.extend([vec![63; 64], ramp(33, 3), vec![1, 0, 1, 0, 1, 0, 1, 0], (0..64).map(|k| (k % 2) as u8 * 63).collect()]);
